@@ -12,7 +12,7 @@
 (***************************************************************************)
 EXTENDS RA_PairLaws, Json
 
-CONSTANTS Mode,      \* "general" | "slices" | "sorts"
+CONSTANTS Mode,      \* "general" | "general2" (more targets: values 0..2) | "slices" | "sorts"
           SortFix,   \* TRUE: Sort.commute as fixed (F10); FALSE: pinned commit
           Clamp,     \* TRUE: Slice.then as fixed (F6); FALSE: pinned commit
           ExcludeKF, \* TRUE: open known findings are excluded from the invariants
@@ -22,7 +22,9 @@ VARIABLES phase, cur, new, res
 vars == <<phase, cur, new, res>>
 
 TC == IF Mode = "slices" THEN {"a"} ELSE {"a", "b"}
-Targets == IF Mode = "slices" THEN CountTargets(6) ELSE SeqsUpTo(RowsAB(1), 3)
+Targets == IF Mode = "slices" THEN CountTargets(6)
+           ELSE IF Mode = "general2" THEN SeqsUpTo(RowsAB(1), 3) \cup SeqsUpTo(RowsAB(2), 2)
+           ELSE SeqsUpTo(RowsAB(1), 3)
 LeafL == Leaf("L", "it1", TC, 0, -1)
 
 A == Ref("a")
